@@ -58,7 +58,12 @@ def cases_for(q: str) -> List[Tuple[str, list, Dict[str, tuple], Optional[tuple]
                 out.append((f"very_readable={prem}, large_text={large}",
                             [("truthy" if prem else "falsy", P("very_readable")), ("truthy" if large else "falsy", large_t)], {}, None))
         return out
+    if q in ADOPTED:
+        return [("any arguments", [("valid8", P("text_rgb"))], {}, (P("text_rgb"), P("bg_rgb")))]
     raise AnalysisError(f"no verification cases for {q}")
+
+
+ADOPTED: set = set()       # helpers introduced after the pinned tree that were given (and verified against) a strategy-style contract
 
 
 def contract_args(q: str, contract: C.Contract) -> Dict[str, tuple]:
